@@ -214,6 +214,13 @@ def excess_unit(v, res):
             cases.append(('subcomponents-in-base-field', 'PID|' + '|' * (i - 1) + 'a&b'))
             break
     cases.append(('repetitions-beyond-max', 'PID|1~2~3'))
+    # the same text at sibling positions (repetitions, components, sub-components, fields): each occurrence is content of its own
+    cases.append(('identical-repetitions', 'PID|1||I1~I2~I1'))
+    cases.append(('identical-repetitions-complex', 'PID|1||I^^^X~I^^^X~I^^^X'))
+    cases.append(('identical-components', 'PID|1||Q^Q^Q^Q'))
+    cases.append(('identical-subcomponents', 'PID|1||I^^^N&N&N'))
+    cases.append(('identical-fields', 'PID|1|S|S||S'))
+    cases.append(('identical-z-repetitions', 'ZZZ|r~r~r|r|r^r&r'))
     cases.append(('z-segment-13-fields', 'ZZZ|1|2|3|4|5|6|7|8|9|10|11|12|13'))
     cases.append(('z-segment-sparse', 'ZZZ||2||||||||||12|13'))
     for tag, line in cases:
